@@ -23,7 +23,7 @@
 //! A Rust implementation of the ear clipping algorithm described, and coded in C++, at
 //! <https://abitwise.blogspot.com/2013/09/triangulating-concave-and-convex.html>
 
-use crate::{approx_eq, Indices, Pt2, Pt2s, Pt3, Pt3s};
+use crate::{Indices, Pt2, Pt2s, Pt3, Pt3s};
 
 /// Test if winding order is counter clockwise.
 ///
@@ -49,7 +49,7 @@ pub fn is_ccw(pts: &[(u64, Pt2)]) -> bool {
 /// return: True if the point is within the triangle else false.   
 pub fn in_triangle(p: &(u64, Pt2), a: &(u64, Pt2), b: &(u64, Pt2), c: &(u64, Pt2)) -> bool {
     let mut denom = (b.1.y - c.1.y) * (a.1.x - c.1.x) + (c.1.x - b.1.x) * (a.1.y - c.1.y);
-    if approx_eq(denom, 0.0, 1.0e-5) {
+    if denom == 0.0 {
         return true;
     }
     denom = 1.0 / denom;
@@ -269,9 +269,7 @@ fn triangulate(mut polygon: Vec<(u64, Pt2)>) -> Indices {
     let mut index = 0usize;
 
     (0..polygon.len()).for_each(|i| {
-        if polygon[i].1.x < left.x
-            || (approx_eq(polygon[i].1.x, left.x, 1.0e-5) && polygon[i].1.y < left.y)
-        {
+        if polygon[i].1.x < left.x || (polygon[i].1.x == left.x && polygon[i].1.y < left.y) {
             index = i;
             left = polygon[i].1;
         }
@@ -321,7 +319,7 @@ fn triangulate(mut polygon: Vec<(u64, Pt2)>) -> Indices {
 
             let mut ear = true;
 
-            for j in ((index + 1) as usize)..polygon.len() {
+            for j in 0..polygon.len() {
                 let v = &polygon[j];
                 if std::ptr::eq(v, &polygon[p as usize])
                     || std::ptr::eq(v, &polygon[n as usize])
